@@ -95,3 +95,7 @@ def run(ctx):
     from rules import c13
     ctx.rule("C01.g", "the kernel refuses an integer dtype together with float weights before allocating", 1)
     c13.check_int_float_refusal(ctx, "C01.g", m, "calculate_1d_frequencies")
+
+    # the constructor keeps the NaN "unknown" markers: missed values are stored as given (shared with C13.b)
+    ctx.rule("C01.h", "Histogram1D.__init__ stores [underflow, overflow, inner_missed] unmodified with the histogram dtype", 1)
+    c13.check_missed_alloc(ctx, "C01.h", m)
